@@ -121,6 +121,16 @@ def run(idx: Index, rep: Report, tier: str) -> None:
         for t, outcome in guards_dominating(cfg, n):
             facts |= _conjuncts(t.ast, outcome)
         ok = "self._prune_actions" in facts
+        if not ok:
+            # the switch may act through an optional local: `x = None; if self._prune_actions: x = …; if x is not None: purge`
+            for fact in sorted(facts):
+                if not fact.endswith(" is not None"):
+                    continue
+                x = fact[: -len(" is not None")]
+                stores = [m for m in cfg.nodes if m.kind == "stmt" and isinstance(m.ast, (ast.Assign, ast.AnnAssign)) and m.ast.value is not None and norm(m.ast.targets[0] if isinstance(m.ast, ast.Assign) else m.ast.target) == x]
+                setters = [m for m in stores if not (isinstance(m.ast.value, ast.Constant) and m.ast.value.value is None)]
+                if stores and setters and len(setters) < len(stores) and all("self._prune_actions" in set().union(*[_conjuncts(t.ast, o) for t, o in guards_dominating(cfg, m)] or [set()]) for m in setters):
+                    ok = True
         rep.check(ok, rule1, "pruning only under self._prune_actions", gpp.loc(c), construct=norm(c)[:80], detail="" if ok else "static-fluent pruning runs even when prune_actions=False", function=gpp.qualname)
         kw = {k.arg: norm(k.value) for k in c.keywords}
         rep.check(kw.get("conds") in cond_lists, rule1, "pruning receives only the filtered conditions", gpp.loc(c), construct=f"conds={kw.get('conds')}", function=gpp.qualname)
@@ -156,7 +166,7 @@ def run(idx: Index, rep: Report, tier: str) -> None:
         tests2 = [s for s in l.owner.body if isinstance(s, ast.If)]
         ok = bool(adds) and bool(tests2) and all("is_true()" in norm(t.test) and "fluent()" in norm(t.test) for t in tests2)
         rep.check(ok, rule1, "an object is valid iff the static fluent is true for it", bs.loc(l.owner), construct=norm(tests2[0].test) if tests2 else "", function=bs.qualname)
-    rep.require_min(rule1, "prune_append_sites", 2)
+    rep.require_min(rule1, "prune_append_sites", 1)
 
     # ---------------------------------------------------------------- (2) enumeration is complete
     rule2 = "C07.2 grounding-enumeration-complete"
@@ -234,7 +244,13 @@ def run(idx: Index, rep: Report, tier: str) -> None:
                 continue
             iv = norm(g.target.elts[0])
             ev = norm(g.target.elts[1].elts[0]) if isinstance(g.target.elts[1], ast.Tuple) else norm(g.target.elts[1])
-            ifs = [s for s in g.body if isinstance(s, ast.If) and norm(s.test) == f"{iv} in {norm(f.target)}"]
+            # the selected indexes: the powerset element itself or a local copy of it (frozenset(p), set(p), …)
+            sel = {norm(f.target)}
+            for a_ in ast.walk(f):
+                if isinstance(a_, ast.Assign) and len(a_.targets) == 1 and isinstance(a_.targets[0], ast.Name) and isinstance(a_.value, ast.Call) and call_name(a_.value) in ("frozenset", "set", "tuple", "list") and len(a_.value.args) == 1 and norm(a_.value.args[0]) == norm(f.target):
+                    if sum(1 for y in ast.walk(f) if isinstance(y, ast.Name) and isinstance(y.ctx, ast.Store) and y.id == a_.targets[0].id) == 1:
+                        sel.add(a_.targets[0].id)
+            ifs = [s for s in g.body if isinstance(s, ast.If) and any(norm(s.test) == f"{iv} in {x_}" for x_ in sel)]
             ok2 = ok2 and len(ifs) == 1
             for s in ifs:
                 pos = [c for x in s.body for c in ast.walk(x) if isinstance(c, ast.Call) and call_name(c) in ("add_precondition", "add_condition") and norm(c.args[-1]) == f"{ev}.condition"]
